@@ -15,7 +15,7 @@ PY_CLAUSES = {"C13_shared_default", "C13_pack_pure", "C12.phase", "C12.pack_rais
 
 
 def cfg(universe, invariants, part, nparts):
-    lines = ["SPECIFICATION Spec", "CONSTANT U <- %s" % universe, "CONSTANTS Part = %d NParts = %d" % (part, nparts)]
+    lines = ["SPECIFICATION Spec", "CONSTANT UName = \"%s\"" % universe, "CONSTANTS Part = %d NParts = %d" % (part, nparts)]
     lines += ["INVARIANT " + i for i in invariants] + ["INVARIANT Emit"]
     return "\n".join(lines) + "\n"
 
